@@ -37,7 +37,7 @@ import factory_lib as L  # noqa: E402
 CID = "C18"
 AREA = "factory"
 VO = ["props/C18.vo", "factory/FacModel.vo", "factory/FacSpec.vo", "factory/FacObs.vo", "factory/FacEq.vo"]
-M_RUN, M_RUN_OLD, M_SPEC, M_ZEQ = 0, 1, 2, 3
+M_RUN, M_RUN_OLD, M_SPEC, M_ZEQ, M_FIXED, M_KIND = 0, 1, 2, 3, 4, 5
 # C18_OLD_MODEL=1: one-off experiment (not part of the registered check): validate a scratch copy of
 # the PRE-e7e8908 tzoffset factory (VERIF_REPO=...) against `step_old`, tzoffset-only scenarios
 OLD_MODEL = os.environ.get("C18_OLD_MODEL") == "1"
@@ -899,9 +899,184 @@ def encode_zone(z, idx, names, classes):
     return [5, idx, 0, 0, 0, 0, 0, 0, 0]
 
 
+def us_of(td):
+    return (td.days * 86400 + td.seconds) * 10 ** 6 + td.microseconds
+
+
+def fixed_checks(verdict, o, stats):
+    """tzutc / tzoffset methods, tzoffset.__init__ and enfold against the hand model FacFixed (which
+    the regenerated gen/FixedGen.v is proved equal to)"""
+    from dateutil import tz
+    names = {None: 0, "UTC": 1}
+    zones = [("utc", None, None, tz.UTC), ("utc", None, None, tz.tzutc())]
+    for name in (None, "UTC", "A", ""):
+        for arg in (0, 3600, -3600, 45, -1, 19800, 50400, -43200, timedelta(hours=1), timedelta(hours=-3, minutes=-30),
+                    timedelta(seconds=1, microseconds=500000), timedelta(microseconds=-1), timedelta(days=1, seconds=-1)):
+            try:
+                zones.append(("off", name, arg, tz.tzoffset.instance(name, arg)))
+            except Exception as ex:
+                verdict.violation({"kind": "tzoffset constructor raised", "input": {"name": name, "offset": str(arg)},
+                                   "exception": type(ex).__name__})
+    instants = [datetime(2000, 1, 1), datetime(1970, 1, 1, 0, 0, 0, 1), datetime(2021, 3, 14, 2, 30),
+                datetime(2021, 11, 7, 1, 30, 59, 999999), datetime(1900, 6, 1, 12), datetime(2038, 1, 19, 3, 14, 8),
+                datetime(3, 1, 1), datetime(9998, 12, 30, 23, 59, 59)]
+    base = datetime(1, 1, 1)
+    n = bad = 0
+    for kind, name, arg, z in zones:
+        ncode = names.setdefault(name, len(names) + 5)
+        for dt in instants:
+            for fold in (0, 1):
+                for nf in (0, 1):
+                    d = dt.replace(fold=fold)
+                    w = us_of(d - base)
+                    aw = d.replace(tzinfo=z)
+                    try:
+                        fu = z.fromutc(aw)
+                        en = tz.enfold(d, fold=nf)
+                        real = [0 if kind == "utc" else us_of(z._offset), us_of(z.utcoffset(d)), us_of(z.dst(d)),
+                                names.setdefault(z.tzname(d), len(names) + 5), 1 if z.is_ambiguous(d) else 0,
+                                us_of(fu.replace(tzinfo=None) - base), fu.fold,
+                                us_of(en.replace(tzinfo=None) - base), en.fold]
+                    except Exception as ex:
+                        real = ["EXC", type(ex).__name__]
+                    if kind == "utc":
+                        args = [1, 1, 0, 0, w, fold, nf]
+                    elif isinstance(arg, timedelta):
+                        args = [0, ncode, 1, us_of(arg), w, fold, nf]
+                    else:
+                        args = [0, ncode, 0, arg, w, fold, nf]
+                    model = o.call(M_FIXED, args)
+                    n += 1
+                    if model != real:
+                        bad += 1
+                        inp = {"zone": repr(z), "dt": str(d), "fold": fold, "enfold": nf}
+                        # the property's own statement for fixed zones: round trip and constant offset
+                        off = None if real[0] == "EXC" else real[1]
+                        concrete = real[0] == "EXC" or off != real[0] or real[5] - off != w or real[4] != 0
+                        verdict.violation({"kind": "fixed-offset zone method differs from the model FacFixed",
+                                           "input": inp, "impl": real, "model": model}, concrete=concrete)
+    stats["fixed_zone_evaluations"] = n
+    stats["fixed_zone_disagreements"] = bad
+
+
+def gettz_facts(name):
+    """the facts GettzFunc.nocache consults about `name`, computed independently of it"""
+    from dateutil import tz
+    from dateutil.zoneinfo import get_zonefile_instance
+    T = tz.tz
+    falsy = not name
+    env = "TZ" in os.environ
+    eff = name
+    if falsy and env:
+        eff = os.environ["TZ"]
+    none_or_colon = eff is None or eff in ("", ":")
+
+    def parses(path):
+        try:
+            tz.tzfile(path)
+            return True
+        except (IOError, OSError, ValueError):
+            return False
+    localfile = False
+    for fp in T.TZFILES:
+        cands = [fp] if os.path.isabs(fp) else [os.path.join(p, fp) for p in T.TZPATHS]
+        hit = next((c for c in cands if os.path.isfile(c)), None)
+        if hit is None and not os.path.isabs(fp):
+            continue
+        if hit is not None and parses(hit):
+            localfile = True
+            break
+    nm = eff
+    if isinstance(nm, str) and nm.startswith(":"):
+        nm = nm[1:]
+    isabs = bool(nm) and os.path.isabs(nm)
+    abs_isfile = isabs and os.path.isfile(nm)
+    path = False
+    if nm and not isabs:
+        for p in T.TZPATHS:
+            fp = os.path.join(p, nm)
+            if not os.path.isfile(fp):
+                fp = fp.replace(" ", "_")
+                if not os.path.isfile(fp):
+                    continue
+            if parses(fp):
+                path = True
+                break
+    tarball = bool(nm) and bool(get_zonefile_instance().get(nm))
+    digit = bool(nm) and any(c in "0123456789" for c in nm)
+    tzstr_ok = False
+    if nm is not None:
+        try:
+            tz.tzstr.instance(nm)
+            tzstr_ok = True
+        except ValueError:
+            pass
+        except Exception:
+            tzstr_ok = None      # another exception class propagates out of gettz: not modelled
+    gmt_utc = nm in ("GMT", "UTC")
+    tzn = nm in time.tzname if nm is not None else False
+    return [falsy, env, none_or_colon, localfile, isabs, abs_isfile, path, tarball, digit, tzstr_ok, gmt_utc, tzn]
+
+
+def kind_checks(verdict, o, stats):
+    """which kind of zone gettz(name) returns: hand decision function FacKind.gettz_kind against the
+    real GettzFunc.nocache on a name pool (with and without tz.TZPATHS)"""
+    from dateutil import tz
+    from dateutil.zoneinfo import get_zonefile_instance
+    pool = [None, "", ":", "UTC", "GMT", ":UTC", "EST5EDT", "America/New_York", "America/New York", "Europe/London",
+            "No/Such", "QQQ", "RRR", "UTC+3", "GMT-3", "5", "EST5EDT,4", "X1", "EST", "/usr/share/zoneinfo/UTC",
+            "/no/such/file", ":/usr/share/zoneinfo/UTC", "Asia/Tokyo", "utc", "gmt", "A B", "Etc/GMT+3", "localtime",
+            "posixrules", "Zulu", "bogus"]
+    n = bad = 0
+    hist = {}
+    for cfg in ("paths", "nopaths"):
+        w = CTX.world(cfg)
+        with TzPaths(w, cfg):
+            for name in pool:
+                facts = gettz_facts(name)
+                if facts[9] is None:
+                    continue
+                try:
+                    rv = tz.gettz.nocache(name)
+                except Exception as ex:
+                    verdict.violation({"kind": "gettz.nocache raised", "input": {"name": repr(name), "config": cfg},
+                                       "exception": type(ex).__name__})
+                    continue
+                tar = get_zonefile_instance()
+                if rv is None:
+                    real = 2
+                elif rv is tz.UTC:
+                    real = 5
+                elif isinstance(rv, tz.tzlocal):
+                    real = 1
+                elif isinstance(rv, tz.tzstr):
+                    real = 4
+                elif any(rv is z for z in tar.zones.values()):
+                    real = 3
+                elif isinstance(rv, tz.tzfile):
+                    real = 0
+                else:
+                    real = -1
+                model = o.call(M_KIND, [1 if name is None else 0] + [1 if x else 0 for x in facts])
+                n += 1
+                hist[real] = hist.get(real, 0) + 1
+                if model[0] != real:
+                    bad += 1
+                    verdict.violation({"kind": "correspondence: kind of zone returned by gettz differs from "
+                                               "FacKind.gettz_kind", "input": {"name": repr(name), "config": cfg},
+                                       "impl": real, "model": model, "facts": facts}, concrete=False)
+    w = CTX.world("paths")
+    w.reset()
+    stats["gettz_kind_names"] = n
+    stats["gettz_kind_disagreements"] = bad
+    stats["gettz_kind_histogram"] = {str(k): v for k, v in sorted(hist.items())}
+
+
 def glue_checks(verdict, o):
     from dateutil import tz
     stats = {"zones": 0, "eq_pairs": 0, "eq_true": 0, "classes": {}}
+    fixed_checks(verdict, o, stats)
+    kind_checks(verdict, o, stats)
     zs = zone_pool()
     stats["zones"] = len(zs)
     names = {"UTC": 1, "GMT": 2}
